@@ -1744,3 +1744,81 @@ def derived_quantities_replay(unit, policy, estimands, prepared=False):
         out["exc"] = f"{type(e).__name__}: {e}"
         out["ok"] = False
     return out
+
+
+def weighted_median_replay():
+    """REAL math_utils.weighted_median on a battery of arrays (ties, a first element heavier than one half, a running
+    total that hits one half exactly, a single row, weights as the caller builds them: w_i / sum w with dyadic w so that
+    the float sums are exact): the result m must be a weighted median -- weight below m <= 1/2 and weight above m <= 1/2"""
+    from elexmodel.utils.math_utils import weighted_median
+
+    rng = np.random.default_rng(7)
+    cases = [
+        (np.array([3.0]), np.array([1.0])),
+        (np.array([1.0, 2.0]), np.array([0.5, 0.5])),
+        (np.array([2.0, 1.0]), np.array([0.75, 0.25])),
+        (np.array([1.0, 2.0, 3.0]), np.array([0.25, 0.25, 0.5])),
+        (np.array([5.0, 5.0, 5.0, 1.0]), np.array([0.25, 0.25, 0.25, 0.25])),
+        (np.array([1.0, 2.0, 2.0, 3.0]), np.array([0.25, 0.25, 0.25, 0.25])),
+        (np.array([4.0, 1.0, 3.0, 2.0]), np.array([0.125, 0.375, 0.25, 0.25])),
+    ]
+    for _ in range(300):
+        n = int(rng.integers(1, 9))
+        raw = rng.integers(1, 9, n).astype(float)
+        tot = raw.sum()
+        # dyadic totals only, so that w_i / total and the running totals are exact in floating point
+        if tot not in (1.0, 2.0, 4.0, 8.0, 16.0, 32.0, 64.0):
+            raw[0] += 2 ** np.ceil(np.log2(tot)) - tot
+            tot = raw.sum()
+        cases.append((rng.integers(0, 5, n).astype(float), raw / tot))
+    out = {"exc": None, "failures": [], "cases": len(cases)}
+    try:
+        for x, w in cases:
+            with warnings.catch_warnings():
+                warnings.simplefilter("ignore")
+                m = float(weighted_median(x.copy(), w.copy()))
+            below, above = float(w[x < m].sum()), float(w[x > m].sum())
+            if not (below <= 0.5 and above <= 0.5):
+                out["failures"].append({"x": x.tolist(), "weights": w.tolist(), "result": m, "weight_below": below, "weight_above": above})
+        out["failures"] = out["failures"][:4]
+        out["ok"] = not out["failures"]
+    except Exception as e:  # noqa
+        out["exc"] = f"{type(e).__name__}: {e}"
+        out["ok"] = False
+    return out
+
+
+def weighted_median_order_replay():
+    """REAL math_utils.weighted_median on the same rows in several orders (all permutations for n <= 5, reversed / rotated /
+    random ones above; strictly positive dyadic weights, ties in the scores): the result must not depend on the order"""
+    import itertools
+
+    from elexmodel.utils.math_utils import weighted_median
+
+    rng = np.random.default_rng(9)
+    out = {"exc": None, "failures": [], "cases": 0}
+    try:
+        for _ in range(150):
+            n = int(rng.integers(1, 8))
+            raw = rng.integers(1, 9, n).astype(float)
+            tot = raw.sum()
+            if tot not in (1.0, 2.0, 4.0, 8.0, 16.0, 32.0, 64.0):
+                raw[0] += 2 ** np.ceil(np.log2(tot)) - tot
+                tot = raw.sum()
+            x, w = rng.integers(0, 4, n).astype(float), raw / tot
+            perms = list(itertools.permutations(range(n))) if n <= 5 else [tuple(range(n)), tuple(reversed(range(n))), tuple(np.roll(np.arange(n), 1))] + [tuple(rng.permutation(n)) for _ in range(20)]
+            results = set()
+            for p_ in perms:
+                idx = np.array(p_, dtype=int)
+                with warnings.catch_warnings():
+                    warnings.simplefilter("ignore")
+                    results.add(float(weighted_median(x[idx].copy(), w[idx].copy())))
+            out["cases"] += 1
+            if len(results) != 1:
+                out["failures"].append({"x": x.tolist(), "weights": w.tolist(), "results_over_the_orders": sorted(results)})
+        out["failures"] = out["failures"][:4]
+        out["ok"] = not out["failures"]
+    except Exception as e:  # noqa
+        out["exc"] = f"{type(e).__name__}: {e}"
+        out["ok"] = False
+    return out
